@@ -161,7 +161,7 @@ class BodyLocks:
 
 
 EFFECTS = [
-    ("E1", "event listener", re.compile(r"^foyer_common::event::EventListener::on_leave$")),
+    ("E1", "event listener", re.compile(r"^foyer_(common|fixture)::event::EventListener::on_leave$")),
     ("E3", "storage filter", re.compile(r"^foyer_storage::filter::(StorageFilterCondition|StorageFilter)::filter$|^foyer_storage::(StorageFilterCondition|StorageFilter)::filter$")),
     ("E4", "pipe / disk hand-off", re.compile(r"^foyer_memory::(pipe::)?Pipe::(send|flush)$|^foyer_storage::(store::)?Store::<K, V, S, P>::enqueue$")),
 ]
